@@ -257,7 +257,7 @@ def roundtrip_checks(tier):
         offsets = ['+10:00', '-03:30', '+05:30', ''] if tier == 'quick' else ['+10:00', '-03:30', '+05:30', '+00:00', '', '-11:00', '+12:45', '-00:30']
         for k, off in enumerate(offsets):
             for conv in ('cf1d', 'shoc_standard', 'ugrid', 'cf2d'):
-              for scalar_time, time_bounds in (((False, False), (True, False), (False, True)) if k < 2 else ((False, False),)):
+              for scalar_time, time_bounds in (((False, False), (True, False), (False, True), (False, 'data-variable')) if k < 2 else ((False, False),)):
                     tname = 't' if conv == 'shoc_standard' else 'time'
                     tdim = 'record'
                     tvals = numpy.array(['2020-01-01T00:00', '2020-01-02T12:00'], dtype='datetime64[ns]')
@@ -270,7 +270,11 @@ def roundtrip_checks(tier):
                         ds = builders.shoc_standard(2, 2, data_vars={'eta': ((tdim,) + builders.SHOC_DIMS['face'], numpy.arange(8.0).reshape(2, 2, 2))})
                     else:
                         ds = builders.ugrid('tqp', fill='nan', data_vars={'eta': ((tdim, 'nface'), numpy.arange(6.0).reshape(2, 3))})
-                    ds = ds.assign_coords({tname: ((tdim,), tvals)})
+                    if time_bounds == 'data-variable':
+                        # time held as a plain data variable (nothing makes it a coordinate)
+                        ds[tname] = ((tdim,), tvals)
+                    else:
+                        ds = ds.assign_coords({tname: ((tdim,), tvals)})
                     units = f'days since 1990-01-01T00:00:00{off}' if off else ('days since 1990-01-01' if k % 2 else 'days since 1990-01-01 00:00:00')
                     # (the three names of the same calendar for these dates)
                     calendar = ('proleptic_gregorian', 'standard', 'gregorian')[(k + len(conv)) % 3]
@@ -279,10 +283,13 @@ def roundtrip_checks(tier):
                         # each time step has an interval: a bounds variable (decoded as times, no units of its own)
                         ds[tname].attrs['bounds'] = tname + '_bnds'
                         ds[tname + '_bnds'] = ((tdim, 'nv'), numpy.stack([tvals - numpy.timedelta64(6, 'h'), tvals + numpy.timedelta64(6, 'h')], axis=-1))
+                        if time_bounds == 'data-variable':
+                            # ... and its bounds are stored ahead of it
+                            ds = ds[[tname + '_bnds'] + [n for n in ds.data_vars if n != tname + '_bnds']]
                     if scalar_time:
                         # one time step selected: the time coordinate is a scalar and is still saved with EMS units
                         ds = ds.isel({tdim: 1})
-                    src = os.path.join(work, f'{conv}-{k}-{int(scalar_time)}{int(time_bounds)}-src.nc')
+                    src = os.path.join(work, f'{conv}-{k}-{int(scalar_time)}{str(time_bounds)[:1]}-src.nc')
                     # the source has no fill-value attribute on variables that do not declare one (also coordinates)
                     for n, v in ds.variables.items():
                         if v.dtype.kind in 'fcmM' and '_FillValue' not in v.encoding and '_FillValue' not in v.attrs:
@@ -290,8 +297,8 @@ def roundtrip_checks(tier):
                     ds.to_netcdf(src)
                     orig = emsarray.open_dataset(src)
                     cls = type(orig.ems)
-                    out = os.path.join(work, f'{conv}-{k}-{int(scalar_time)}{int(time_bounds)}-out.nc')
-                    case = f'roundtrip:{conv}:{off}:{calendar}' + (':scalar-time' if scalar_time else '') + (':time-bounds' if time_bounds else '')
+                    out = os.path.join(work, f'{conv}-{k}-{int(scalar_time)}{str(time_bounds)[:1]}-out.nc')
+                    case = f'roundtrip:{conv}:{off}:{calendar}' + (':scalar-time' if scalar_time else '') + (':time-bounds' if time_bounds else '') + (':time-is-a-data-variable' if time_bounds == 'data-variable' else '')
                     try:
                         orig.ems.to_netcdf(out)
                     except Exception as e:
@@ -349,6 +356,31 @@ def roundtrip_checks(tier):
             if not all((a is None and b is None) or (a is not None and b is not None and a.equals(b)) for a, b in zip(ref, back.ems.polygons)):
                 V('roundtrip:ugrid:in-memory', 'identical polygons after the round trip', f'fill value {fv}')
             back.close()
+        # variables that were never decoded (built in memory, or opened with mask_and_scale=False) keep what they declare:
+        # a missing_value attribute stays, and no _FillValue appears next to it or on a variable that declares nothing
+        import netCDF4
+        for conv in ('cf2d', 'ugrid', 'shoc_standard'):
+            dims, shape = {'cf2d': (('y', 'x'), (2, 2)), 'ugrid': (('nface',), (3,)), 'shoc_standard': (builders.SHOC_DIMS['face'], (2, 2))}[conv]
+            data = {'botz': (dims, numpy.arange(1.0, 1.0 + int(numpy.prod(shape))).reshape(shape), {'missing_value': numpy.float64(-999.0), 'units': 'm'}),
+                    'plain': (dims, numpy.arange(int(numpy.prod(shape)), dtype='float32').reshape(shape) + 0.5),
+                    'flagged': (dims, numpy.arange(int(numpy.prod(shape)), dtype='float64').reshape(shape), {'missing_value': numpy.float64(1e35), '_FillValue': numpy.float64(1e35)})}
+            mem = {'cf2d': lambda: builders.cf2d(2, 2, data_vars=data), 'ugrid': lambda: builders.ugrid('tqp', fill='nan', data_vars=data),
+                   'shoc_standard': lambda: builders.shoc_standard(2, 2, data_vars=data)}[conv]()
+            out = os.path.join(work, f'{conv}-mem-missing.nc')
+            case = f'roundtrip:{conv}:in-memory:undecoded-missing_value'
+            try:
+                mem.ems.to_netcdf(out)
+            except Exception as e:
+                V(case, 'saving through the convention succeeds', f'{type(e).__name__}: {e}')
+                continue
+            with netCDF4.Dataset(out) as B:
+                for name, declared in (('botz', False), ('plain', False), ('flagged', True)):
+                    has = '_FillValue' in B.variables[name].ncattrs()
+                    if has != declared:
+                        V(case, 'no fill-value attributes that the source did not have', f'{name}: _FillValue {"gained" if has else "lost"}')
+                if 'missing_value' not in B.variables['botz'].ncattrs() or float(B.variables['botz'].getncattr('missing_value')) != -999.0:
+                    V(case, 'identical variable attributes after the round trip', 'botz lost its missing_value')
+            notes.append(case)
     finally:
         shutil.rmtree(work, ignore_errors=True)
     return viol, notes
